@@ -158,7 +158,7 @@ Proof.
     + split; [|exact (proj2 Old)]. rewrite (map_ext _ _ BK). exact (proj1 Old).
 Qed.
 
-Lemma remove_ok s c a : lists_ok s -> lists_ok (fst (remove_backend s c a)).
+Lemma remove_ok s c id a : lists_ok s -> lists_ok (fst (remove_backend s c id a)).
 Proof.
   intros K. unfold remove_backend. cbn [fst]. intros c'. rewrite lists_with_cluster. cbn [c_list].
   destruct (K c') as [N B].
@@ -288,13 +288,62 @@ Proof.
   cbn [find]. rewrite E. exact IH.
 Qed.
 
-Lemma removed_not_found s c a : find_backend (fst (remove_backend s c a)) c a = None.
+(** what [remove_backend] does to the lists: in the cluster named, exactly the entries that are the backend
+    (id, address) go — every other entry stays, in order; the other cluster and every backend object are untouched *)
+Lemma remove_lists s c id a c' :
+  lists (fst (remove_backend s c id a)) c' =
+  if (c =? c')%nat then filter (fun h => negb (is_backend (s_heap s) id a h)) (lists s c') else lists s c'.
 Proof.
-  unfold find_backend. change (c_list (cget (fst (remove_backend s c a)) c)) with (lists (fst (remove_backend s c a)) c).
-  unfold remove_backend. cbn [fst]. rewrite lists_with_cluster. cbn [c_list with_cluster s_heap].
-  rewrite Nat.eqb_refl. cbn [andb]. destruct (c <? length (s_cl s))%nat eqn:E.
-  - apply (find_filter_none (fun h => b_addr (hget (s_heap s) h) =? a)).
-  - unfold lists, cget. rewrite nth_overflow by (apply Nat.ltb_ge, E). reflexivity.
+  unfold remove_backend. cbn [fst]. rewrite lists_with_cluster. cbn [c_list].
+  destruct (c =? c')%nat eqn:E; cbn [andb]; [|reflexivity].
+  apply Nat.eqb_eq in E. subst c'. destruct (c <? length (s_cl s))%nat eqn:L; [reflexivity|].
+  unfold lists, cget. rewrite nth_overflow by (apply Nat.ltb_ge, L). reflexivity.
+Qed.
+
+Lemma remove_heap s c id a : s_heap (fst (remove_backend s c id a)) = s_heap s.
+Proof. reflexivity. Qed.
+
+Lemma removed_not_listed s c id a hd :
+  b_id (hget (s_heap s) hd) = id -> b_addr (hget (s_heap s) hd) = a ->
+  ~ In hd (c_list (cget (fst (remove_backend s c id a)) c)).
+Proof.
+  intros I A H. change (In hd (lists (fst (remove_backend s c id a)) c)) in H.
+  rewrite remove_lists, Nat.eqb_refl in H. apply filter_In in H. destruct H as [_ H].
+  unfold is_backend in H. rewrite I, A, !N.eqb_refl in H. discriminate.
+Qed.
+
+Lemma remove_keeps_others s c id a hd :
+  In hd (lists s c) -> (b_id (hget (s_heap s) hd), b_addr (hget (s_heap s) hd)) <> (id, a) ->
+  In hd (lists (fst (remove_backend s c id a)) c).
+Proof.
+  intros H Hn. rewrite remove_lists, Nat.eqb_refl. apply filter_In. split; [exact H|].
+  unfold is_backend. destruct (b_addr (hget (s_heap s) hd) =? a) eqn:E1; [|reflexivity].
+  destruct (b_id (hget (s_heap s) hd) =? id) eqn:E2; [|reflexivity].
+  apply N.eqb_eq in E1, E2. exfalso. apply Hn. congruence.
+Qed.
+
+(** with the keys of a list distinct (an invariant of every history, [hrun_ok] / [op_ok]) at most one entry goes *)
+Lemma filter_one_key {A B} (key : A -> B) (p : A -> bool) (k : B) (l : list A) :
+  NoDup (map key l) -> (forall x, p x = true -> key x = k) ->
+  (length (filter p l) <= 1)%nat.
+Proof.
+  intros N P. induction l as [|x t IH]; [cbn; lia|]. cbn in N. inversion N; subst. cbn [filter].
+  destruct (p x) eqn:E; [|apply IH; exact H2]. cbn [length].
+  assert (Z : filter p t = []).
+  { destruct (filter p t) as [|y r] eqn:F; [reflexivity|]. exfalso.
+    assert (Hy : In y (filter p t)) by (rewrite F; left; reflexivity).
+    apply filter_In in Hy. destruct Hy as [Hy1 Hy2]. apply H1. rewrite (P x E), <- (P y Hy2).
+    apply in_map. exact Hy1. }
+  rewrite Z. cbn. lia.
+Qed.
+
+Lemma remove_at_most_one s c id a :
+  lists_ok s -> (length (snd (remove_backend s c id a)) <= 1)%nat.
+Proof.
+  intros K. unfold remove_backend. cbn [snd]. rewrite map_length.
+  apply (filter_one_key (bkey s) _ (id, a)); [apply (proj1 (K c))|].
+  intros x H. unfold is_backend in H. apply andb_prop in H. destruct H as [H1 H2].
+  apply N.eqb_eq in H1, H2. unfold bkey. congruence.
 Qed.
 
 Lemma record_result_not_listed s c a v cf hd :
@@ -304,3 +353,7 @@ Proof.
   intros L H. apply record_result_only_found; [exact L|]. intros F. apply H.
   unfold find_backend in F. apply find_some in F. tauto.
 Qed.
+
+Lemma filter_split_length {A} (p : A -> bool) (l : list A) :
+  (length (filter p l) + length (filter (fun x => negb (p x)) l) = length l)%nat.
+Proof. induction l as [|x t IH]; [reflexivity|]. cbn [filter]. destruct (p x); cbn [negb length]; lia. Qed.
